@@ -43,7 +43,10 @@ def _rand_cmd(rng):
     r = rng.random()
     k = rng.choice(["a", "b", "ab"])
     ttl = rng.choice([0, 0, 0, 0.5, 1.0, 2.5])
-    if r < 0.24: return ["get", rng.choice(U)]
+    if r < 0.17: return ["get", rng.choice(U)]
+    if r < 0.24:      # a default of the caller's own, drawn from the values the commands write: asked twice with two different defaults
+        d1, d2 = rng.sample([0, 1, 5, "", "x", False], 2)
+        return ["get", rng.choice(U), enc(d1), enc(d2)]
     if r < 0.30: return ["get_many", [rng.choice(U) for _ in range(rng.randint(1, 4))]]
     if r < 0.36: return ["exists", rng.choice(U)]
     if r < 0.58: return ["set", k, enc(rng.choice(VALUES)), ttl, rng.choice([None, None, None, True, False, False])]
@@ -166,7 +169,14 @@ def run_impl(case):
                 c, cm = cl[ev[1]], ev[2]
                 op = cm[0]
                 try:
-                    if op == "get":
+                    if op == "get" and len(cm) > 2:
+                        d1, d2 = dec(cm[2]), dec(cm[3])
+                        v1 = await c.get(cm[1], default=d1)
+                        v2 = await c.get(cm[1], default=d2)
+                        if type(v1) is type(d1) and v1 == d1 and type(v2) is type(d2) and v2 == d2: r = ["val", None]      # a miss answers each call with its default
+                        elif type(v1) is type(v2) and v1 == v2: r = ["val", [enc(v1)]]
+                        else: r = ["other", "two reads of one key disagree: %r / %r" % (v1, v2)]
+                    elif op == "get":
                         v = await c.get(cm[1], default=DEFAULT); r = ["val", None if isinstance(v, str) and v == DEFAULT else [enc(v)]]
                     elif op == "get_many":
                         vs = await c.get_many(*cm[1], default=DEFAULT); r = ["vals", [None if isinstance(v, str) and v == DEFAULT else [enc(v)] for v in vs]]
